@@ -41,6 +41,7 @@ type Output struct {
 	SkippedPairs  map[string]string `json:"skipped_pairs,omitempty"`
 	TotalQueries  int               `json:"total_queries"`
 	TotalSolverS  float64           `json:"total_solver_s"`
+	SolverTimeouts int              `json:"solver_timeouts"`
 }
 
 func main() {
@@ -77,6 +78,7 @@ func cmdCheck(argv []string) {
 	samples := fs.Int("samples", 1, "completed paths per driver for which a model and concrete logs are kept")
 	solver := fs.String("solver", "z3", "z3 | z3-new | cvc5")
 	record := fs.String("record", "", "write the query transcript of worker 0 to this file")
+	qtimeout := fs.Duration("qtimeout", 15*time.Second, "hard wall-clock limit per solver query (watchdog)")
 	initPkgs := fs.String("init", "", "comma-separated extra package paths whose init may run")
 	fs.Parse(argv)
 
@@ -250,10 +252,11 @@ func cmdCheck(argv []string) {
 			if err != nil {
 				fatal("solver: " + err.Error())
 			}
-			defer sol.Close()
+			sol.QueryTimeout = *qtimeout
 			m := &Machine{prog: prog, tt: NewTermTable(), sol: sol, budget: lim.Budget,
 				genCache: map[*ssa.Function]bool{}, allowInit: allowInit, funcsUsed: map[*ssa.Function]int{}, rtErrType: rtErr}
 			w := &Worker{m: m, lim: lim}
+			defer func() { m.sol.Close() }()
 			for {
 				mu.Lock()
 				i := next
@@ -268,8 +271,9 @@ func cmdCheck(argv []string) {
 			for k, v := range m.funcsUsed {
 				output.FuncsEncoded[k.String()] += v
 			}
-			output.TotalQueries += sol.Queries
-			output.TotalSolverS += sol.Time.Seconds()
+			output.TotalQueries += m.sol.Queries
+			output.TotalSolverS += m.sol.Time.Seconds()
+			output.SolverTimeouts += m.sol.Timeouts
 			mu.Unlock()
 		}(wi)
 	}
